@@ -133,10 +133,49 @@ impl Exec {
     }
 }
 
+/// a sketcher of the same type and size as the job's, with other parameters / input, built, used and dropped
+fn decoy(job: &Job, code: u8) {
+    match job {
+        Job::U(p) => {
+            let mut spec = p.spec.clone();
+            if let Some(sp) = spec.setp.as_mut() {
+                sp.a_bits = (sp.a() * 2.0).to_bits();
+            }
+            let mut n = make_unode(&spec);
+            for k in 0..3u64 {
+                n.deliver(1_000_003 * (code as u64 + 1) + k);
+            }
+            if spec.kind.is_dens() {
+                n.finish();
+            }
+            std::hint::black_box(n.views().len());
+        }
+        Job::W(p) => {
+            let mut n = make_wnode(p);
+            let pairs = [(77u64 + code as u64, 3.5f64), (78 + code as u64, 0.25)];
+            match p.variant {
+                crate::sc_wstream::Variant::Pmh2 | crate::sc_wstream::Variant::Pmh3 => {
+                    for (i, w) in pairs {
+                        n.item(i, w);
+                    }
+                }
+                _ => n.idxmap(&pairs),
+            }
+            std::hint::black_box(n.sig().len());
+        }
+        Job::O(p) => {
+            let mut sk = make_ord(p.hash, p.m, p.l);
+            let s: Vec<u64> = (0..(p.l as u64 + 3)).map(|k| k % 3 + code as u64).collect();
+            std::hint::black_box(sk(&s).len());
+        }
+    }
+}
+
 /// ambient-state perturbations executed in the replica's own thread before a step
-fn perturb(code: u8) {
+fn perturb(code: u8, job: &Job) {
     use rand::RngCore;
     match code % 8 {
+        6 | 7 => decoy(job, code),
         1 => {
             // draws from the per-thread generator
             let mut r = rand::rng();
@@ -263,7 +302,7 @@ impl Scenario for Replicas {
                     while let Ok(cmd) = ctx_rx.recv() {
                         let r = caught(|| match cmd {
                             Cmd::Step(i, code) => {
-                                perturb(code);
+                                perturb(code, job);
                                 if i == 0 {
                                     ex = Some(Exec::construct(job, salt));
                                 } else {
@@ -290,7 +329,7 @@ impl Scenario for Replicas {
                     ctx.count("fault:ambient-state-perturbed");
                 }
                 if r < plan.inline_replicas {
-                    perturb(code);
+                    perturb(code, job);
                     if i == 0 {
                         inline[r] = Some(Exec::construct(job, r as u64));
                     } else {
